@@ -83,6 +83,36 @@ impl WrappedWrite {
     { unimplemented!() }
 }
 
+/*@type file=src/al_control.rs name=AlControl derive="Clone, Copy, PartialEq, Eq, Debug" @*/
+impl AlControl {
+/*@fn file=src/al_control.rs impl="impl AlControl" name=new props=C10
+    ensures r.state == state, !r.error, !r.id_request
+@*/
+}
+impl EtherCrabWireSized for AlControl { const PACKED_LEN: usize = 2; }
+impl EtherCrabWireRead for AlControl {
+    uninterp spec fn unpack_spec(b: Seq<u8>) -> Result<AlControl, WireError>;
+    #[verifier::external_body]
+    fn unpack_from_slice(buf: &[u8]) -> (r: Result<AlControl, WireError>) { unimplemented!() }
+}
+impl EtherCrabWireSized for AlStatusCode { const PACKED_LEN: usize = 2; }
+impl EtherCrabWireRead for AlStatusCode {
+    uninterp spec fn unpack_spec(b: Seq<u8>) -> Result<AlStatusCode, WireError>;
+    #[verifier::external_body]
+    fn unpack_from_slice(buf: &[u8]) -> (r: Result<AlStatusCode, WireError>) { unimplemented!() }
+}
+
+/// "the AL control write `req` to station `address` was answered (working counter checked) with `resp`"
+pub uninterp spec fn al_exchange(cmd: Writes, req: AlControl, resp: AlControl) -> bool;
+
+impl WrappedWrite {
+    /// checked write-and-read-back (contract proved in unit `wrapped`: Ok => the counter matched)
+    #[verifier::external_body]
+    pub async fn send_receive<T: EtherCrabWireRead>(self, maindevice: &MainDevice, value: AlControl) -> (r: Result<AlControl, Error>)
+        ensures r is Ok ==> al_exchange(self.command, value, r->Ok_0)
+    { unimplemented!() }
+}
+
 /// the fields of SubDeviceRef used here
 pub struct SubDeviceRef<'a> { pub maindevice: &'a MainDevice, pub configured_address: u16 }
 
@@ -92,6 +122,13 @@ impl<'a> SubDeviceRef<'a> {
 @*/
 /*@fn file=src/subdevice/mod.rs impl="impl<'maindevice, S> SubDeviceRef<'maindevice, S>" name=read subst="impl Into<u16>=>RegisterAddress" props=C08
     ensures r.command == (Reads::Fprd { address: self.configured_address, register: register as u16 })
+@*/
+
+/*@fn file=src/subdevice/mod.rs impl="impl<'maindevice, S> SubDeviceRef<'maindevice, S>" name=request_subdevice_state_nowait props=C10
+    ensures
+        // Ok only if THIS device (its own station address) acknowledged the request without raising its error flag
+        r is Ok ==> exists|resp: AlControl| #[trigger] al_exchange(Writes::Fpwr { address: self.configured_address, register: 0x0120 },
+                AlControl { state: desired_state, error: false, id_request: false }, resp) && !resp.error,
 @*/
 
 /*@fn file=src/subdevice/configuration.rs impl="impl<S> SubDeviceRef<'_, S>" name=write_fmmu_config props=C08
